@@ -1,1 +1,22 @@
-/-! C10 — property theorems (stub; no obligations yet) -/
+import Ypv.Lemmas.Anchors
+/-!
+# C10 — anchor conflicts in a merge follow the chosen policy and the result reloads
+-/
+namespace Ypv.C10
+open Ypv Ypv.Anchors
+
+/-- `_calc_unique_anchor` terminates (within `known.length + 1` rounds) for every anchor name and
+every set of known names, and the name it returns collides with no known name. -/
+theorem unique_anchor_terminates_fresh (a : Str) (known : List Str) :
+    ∃ f, calcUnique a known = some f ∧ f ∉ known := by
+  have h := calcUnique_isSome a known
+  cases hc : calcUnique a known with
+  | none => rw [hc] at h; cases h
+  | some f => exact ⟨f, rfl, calcUnique_fresh a known f hc⟩
+
+/-- When every anchor name of a document is borne by one object, the emitter defines each
+name exactly once: the serialised document has no duplicate anchor. -/
+theorem no_duplicate_anchor_of_oneObj (d : ANode) (h : OneObj (occs d)) : (emittedDefs d).Nodup :=
+  defsFrom_nodup _ _ h
+
+end Ypv.C10
